@@ -146,6 +146,14 @@ def run(tier, seed, replay=None):
         local = rng.choice(["gmres", "bicgstab"]) if max_full == 0 else None
         if i % 5 == 4:                        # every fifth case: BiCGSTAB, no preconditioner, tight tolerance
             max_full, local, prec, eps = 0, "bicgstab", None, rng.choice([1e-10, 1e-8])
+        band = None
+        if kind == "laplace" and max_full == 0 and (rng.random() < 0.6 or i % 7 == 3):      # the documented band_diagonal option (the cores of this family are tridiagonal)
+            band = rng.choice([1, 2])
+        zero_sum = rng.random() < 0.15 or i in (2, 6)
+        if zero_sum:                          # a right-hand side whose last core sums to zero along its mode: the projection on the default (all-ones) guess vanishes exactly
+            cs_ = [c.clone() for c in b.cores]; cs_[-1] = torch.zeros_like(cs_[-1])
+            for p_ in range(cs_[-1].shape[0]): cs_[-1][p_, 0, 0] = float(p_ + 1); cs_[-1][p_, 1, 0] = -float(p_ + 1)
+            b = torchtt.TT(cs_)
         gk = rng.choice(["none", "none", "none", "random", "random", "zeros", "0*b", "b", "random*1e6", "random*1e-9", "zero-core"])
         guess = None
         if gk != "none":
@@ -160,7 +168,7 @@ def run(tier, seed, replay=None):
         dist["guess:" + gk] = dist.get("guess:" + gk, 0) + 1
         sd = rng.randrange(1 << 30); torch.manual_seed(sd)
         desc = {"N": N, "family": kind, "rank_A": [int(r) for r in A.R], "rank_b": [int(r) for r in b.R], "eps": eps, "preconditioner": prec, "max_full": max_full,
-                "local_solver": local, "guess": guess is not None, "guess_kind": gk, "torch_seed": sd}
+                "local_solver": local, "guess": guess is not None, "guess_kind": gk, "torch_seed": sd, "band_diagonal": band, "zero_sum_rhs": zero_sum}
         key = "%s prec=%s %s" % (kind, prec, "full" if max_full else local)
         dist[key] = dist.get(key, 0) + 1
         if i % 8 == 0 and len(samples) < 5: samples.append(desc)
@@ -169,6 +177,8 @@ def run(tier, seed, replay=None):
         snaps = {k: history.Snap(v) for k, v in ops.items()}
         kw = dict(x0=guess, eps=eps, nswp=40, preconditioner=prec, max_full=max_full, verbose=False, use_cpp=False)
         if local: kw["local_solver"] = 1 if local == "gmres" else 2
+        if band is not None: kw["band_diagonal"] = band; dist["band_diagonal option"] = dist.get("band_diagonal option", 0) + 1
+        if zero_sum: dist["zero-sum right-hand side"] = dist.get("zero-sum right-hand side", 0) + 1
         try:
             x = torchtt.solvers.amen_solve(A, b, **kw)
         except Exception as ex:
